@@ -84,6 +84,12 @@ type NestStruct struct {
 
 // String returns the string representation of the nested struct assignment.
 func (s NestStruct) String() string {
+	return s.Render(func(a Assignment) string { return a.String() })
+}
+
+// Render returns the string representation of the nested struct assignment,
+// using render to stringify each of its contents.
+func (s NestStruct) Render(render func(Assignment) string) string {
 	var sb strings.Builder
 	if s.NullCheckExpr != "" {
 		sb.WriteString("if ")
@@ -95,7 +101,7 @@ func (s NestStruct) String() string {
 		sb.WriteString("\n")
 	}
 	for _, content := range s.Contents {
-		sb.WriteString(content.String())
+		sb.WriteString(render(content))
 	}
 	if s.NullCheckExpr != "" {
 		sb.WriteString("}\n")
